@@ -113,7 +113,7 @@ func c05Try(r *core.Run, worker int, kind string, x []byte, aux int, idKey []byt
 	r.Evaluations.Add(1)
 	var parsed, verified bool
 	var consumed []byte
-	r.Begin(worker, func() string { return kind + ".Verify " + core.Hex(x) })
+	r.Begin(worker, func() string { return kind + ".Verify " + core.HexFull(x) })
 	pan, _ := core.Guard(func() { parsed, verified, consumed = c05LibVerify(kind, x, aux, idKey) })
 	r.End(worker)
 	if pan || !parsed {
